@@ -5,7 +5,8 @@ from typing import Any, Dict, List, Optional, Set, Tuple
 
 from ..facts import AnalysisError
 from ..report import Check
-from ..symexec import freeze, show
+from ..symexec import freeze, show, SymExec
+from .. import lexmodel as LM
 from .. import opmodel as om
 from .. import ctx as C
 from .. import lalr
@@ -26,6 +27,31 @@ LEVELS: Dict[str, Tuple[int, str]] = {
 }
 
 
+def _spaced_words(parsed) -> Optional[str]:
+    """Canonical text of a token made of fixed words separated by runs of white space (`not\\s+in` -> 'not in')."""
+    import re._constants as K
+    out = []
+    try:
+        items = list(parsed)
+    except TypeError:
+        return None
+    for op, av in items:
+        if op is K.LITERAL:
+            out.append(chr(av))
+        elif op in (K.MAX_REPEAT, K.MIN_REPEAT) and av[0] >= 1:
+            sub = list(av[2])
+            ok = len(sub) == 1 and ((sub[0][0] is K.IN and all(x == (K.CATEGORY, K.CATEGORY_SPACE) or (x[0] is K.LITERAL and chr(x[1]) in ' \t')
+                                                               for x in sub[0][1]))
+                                    or (sub[0][0] is K.LITERAL and chr(sub[0][1]) in ' \t'))
+            if not ok:
+                return None
+            out.append(' ')
+        else:
+            return None
+    txt = ''.join(out)
+    return txt if txt.strip() and ' ' in txt.strip() else None
+
+
 class Surface:
     def __init__(self, F):
         self.F = F
@@ -37,6 +63,8 @@ class Surface:
         t = self.lm.token_texts.get(tok)
         if t is not None and len(t) == 1:
             return next(iter(t))
+        if t is None and tok in self.lm.rules:
+            return _spaced_words(self.lm.rules[tok].parsed)
         return None
 
     def is_expr(self, s: str) -> bool:
@@ -206,6 +234,7 @@ def check(chk: Check) -> None:
     _r3(chk, R3, g, lm)
     _r4(chk, R4, g, lm, TP, sf)
     _r6(chk, g, T, sf)
+    _r7_r8(chk, sf)
 
 
 def _r6(chk: Check, g, T, sf) -> None:
@@ -376,3 +405,66 @@ def _vkind(F, TP, v) -> str:
     if v[0] == 'default':
         return 'any'
     return 'any'
+
+
+def _r7_r8(chk: Check, sf: Surface) -> None:
+    """The grammar speaks about tokens; "a text is accepted iff the grammar derives it" also needs the text to be cut into the
+    tokens the grammar means, and every tree to come out of the parser."""
+    F = chk.facts
+    lm = sf.lm
+    R7 = chk.rule('C06.R7', 'token boundaries: no rule tried before the identifier rule can match the beginning of a longer '
+                            'identifier, and no operator / keyword rule can match across a line break', floor=1)
+    R8 = chk.rule('C06.R8', 'every tree comes out of the LALR parser: each returning path of SqParser.parse returns the cached '
+                            'tree for this text or the tree the yacc run on this text left behind - nothing is parsed by other means', floor=1)
+    chk.decided += ['tokenisation cannot split identifiers or glue lines (R7)', 'no parsing shortcut outside the tables (R8)']
+    from .c18 import identifier_prefix_thieves, ident_token
+    from . import lexfacts as LF
+    IDENT = ident_token(lm)
+    thieves = identifier_prefix_thieves(lm, IDENT)
+    chk.require(not thieves, R7, 'rules tried before t_%s' % IDENT, lm.spec.module.rel, '; '.join(thieves) or
+                '%d earlier rules: none can stop inside an identifier' % lm.order.index(IDENT))
+    NL = LF.newline_rule(lm)
+    for name in lm.order:
+        rm = lm.rules[name]
+        if not rm.newline or name == NL:
+            continue
+        stringish = any(LM.first_chars_can(rm.parsed, q) for q in '"\'') and not any(LM.first_chars_can(rm.parsed, c) for c in 'az_')
+        if stringish or rm.returns_token == 'never':
+            continue            # string literals carry their line breaks as data; comments are C15's business
+        chk.bad(R7, 't_%s spans lines' % name, '%s:%d' % (lm.spec.module.rel, rm.rule.line),
+                'the rule can match across a line break: at top level the line break is a statement separator the grammar '
+                'never sees, so two lines are glued into one expression')
+    # R8
+    from .c17 import PARSER, cache_accesses, is_yacc_parse
+    q = PARSER + '.parse'
+    fi = F.func(q)
+    selft = ('param', om.self_param(F, q))
+    src = ('param', fi.node.args.args[1].arg)
+    cache = ('attr', selft, 'parse_cache')
+    problems = []
+    n = 0
+    for p in SymExec(F, fi).run():
+        if not p.normal:
+            continue
+        n += 1
+        ret = p.outcome[1]
+        runs = [e for e in p.events if e.kind == 'call' and is_yacc_parse(e, selft)]
+        from_cache = isinstance(ret, tuple) and ret[:1] == ('sub',) and om.carries(ret[1], cache)
+        from_cache = from_cache or (isinstance(ret, tuple) and ret[:1] == ('call',) and isinstance(ret[2], tuple) and ret[2][:1] == ('attr',)
+                                    and om.carries(ret[2][1], cache) and ret[2][2] in ('get', '__getitem__'))
+        if from_cache:
+            continue
+        if not runs:
+            problems.append('a path returns %s without running the parser' % show(ret))
+            continue
+        # the value returned must be what the actions left on the lexer: an attribute of the lexer object handed to yacc
+        kw = dict(freeze(runs[-1].kwargs))
+        lx = kw.get('lexer', freeze(runs[-1].args)[1] if len(runs[-1].args) > 1 else None)
+        core = ret
+        while isinstance(core, tuple) and core[:1] == ('call',) and isinstance(core[2], tuple) and core[2][:2] == ('ref', 'ext') \
+                and core[2][2] in ('typing.cast',) and len(core[3]) == 2:
+            core = core[3][1]
+        if not (isinstance(core, tuple) and core[:1] == ('attr',) and lx is not None and core[1] == lx):
+            problems.append('a path that ran the parser returns %s, not the tree the grammar actions left on the lexer' % show(ret))
+    chk.require(not problems and n, R8, q, fi.where, '; '.join(sorted(set(problems))[:3]) or
+                '%d returning path(s): cached tree or the result of the yacc run' % n)
